@@ -371,6 +371,12 @@ def toast_pixel_for_point(depth, lat, lon, coordsys=ToastCoordinateSystem.ASTRON
     # that is closest to the input position.
 
     lons, lats = toast_tile_get_coords(tile)
+
+    # The pixel longitudes may be reported on a different 2pi branch than *lon*
+    # (e.g. in [-pi/2, 0] for lon ~ 3pi/2). Bring them onto the branch around
+    # *lon* so that distances and the fit below are meaningful.
+    lons = lon + ((lons - lon + np.pi) % TWOPI - np.pi)
+
     dist2 = (lons - lon) ** 2 + (lats - lat) ** 2
     min_y, min_x = np.unravel_index(np.argmin(dist2), (256, 256))
 
